@@ -548,7 +548,7 @@ def run(tier, pid=PID, pop_heavy=False):
                         "closure of the constraints whose literal is assigned; conflicts are compared with negative-cycle existence; every learnt clause / "
                         "theory conflict seen through the hooks is validated; non-trivial = the history contained a conflict or a pop")
     exe = [build.driver("dbg", "net_drv"), build.driver("rel", "net_drv")]
-    total = 6000 if tier == "quick" else 40000
+    total = 6000 if tier == "quick" else 250000
     per = 50 if tier == "quick" else 200
     common.pmap(work, [(exe, s, per, pop_heavy, pid) for s in range(0, total, per)], res)
     res.gate("conflicts reached", res.counters.get("feature:conflict", 0) > 0)
